@@ -827,6 +827,7 @@ package gldap
 //@   ensures  !held(&s.mu)
 //@   ensures[C12] err == nil ==> !isNilIface(s.listener) && G_lclosed[iref(s.listener)]
 //@   ensures[C07] err != nil ==> !G_acctemp[0] || old(G_acctemp[0])
+//@   ensures[C17] err != nil && s.listenerReady && !old(s.listenerReady) ==> !isNilIface(s.listener) && G_listening[iref(s.listener)]
 //@   panics false
 //@   tags C17 C09 C18 C15 C07
 //@ loop 1
